@@ -222,7 +222,9 @@ pub fn panic_site(loc: &str) -> String {
 }
 
 pub fn open_fds() -> usize {
-  let under_sanitizer = slow_factor() > 1;
+  // (the sanitizer/Miri slowdown announced by the driver - NOT the machine-load factor, which changes over time and
+  // would make the two counts of one history disagree about the process's own stdout/stderr pipes)
+  let under_sanitizer = std::env::var("VH_SLOW").ok().and_then(|v| v.parse::<u32>().ok()).unwrap_or(1) > 1;
   std::fs::read_dir("/proc/self/fd")
     .map(|d| {
       d.filter(|e| {
